@@ -287,6 +287,94 @@ func TestC10(t *testing.T) {
 			return newTN()
 		}
 
+		aclStep := func(rt *rapid.T, fe *ftEntry, fs *chain.Account, fkind, fop string) (opDone, kindDone string, eDone *ftEntry, sDone chain.Account, okDone bool) {
+			e := fe
+			if e == nil {
+				e = drawEntry(rt)
+			}
+			signer := signerFor(rt, e)
+			if fs != nil {
+				signer = *fs
+			}
+			addr, owner := craft(rt, "address", e.Address), craft(rt, "fileOwner", e.Owner)
+			if rapid.IntRange(0, 5).Draw(rt, "accountForOwnerAddress") == 0 {
+				owner = e.Account // the account hash where the owner address is expected
+			}
+			t, found := w.model[ftKey(addr, owner)]
+			verdict := mustFail
+			if found && w.isOwner(t, signer.Bech) {
+				verdict = mayDo
+			}
+			kind := rapid.SampledFrom([]string{"v", "e"}).Draw(rt, "list")
+			op := rapid.SampledFrom([]string{"add", "add", "remove", "reset"}).Draw(rt, "op")
+			if fkind != "" {
+				kind, op = fkind, fop
+			}
+			tn := ""
+			if found {
+				tn = t.Tracking
+			}
+			ids, keys := idsOf(rt, kind, tn)
+			if found && rapid.IntRange(0, 7).Draw(rt, "memberActsOnItsOwnId") == 0 {
+				// somebody who is not the owner names exactly its own id of that list (a viewer "leaving a share")
+				m := drawAcc(rt, "member")
+				signer = m
+				ids, keys = hexsha(kind+tn+m.Bech), "k"
+				verdict = mustFail
+				if w.isOwner(t, signer.Bech) {
+					verdict = mayDo
+				}
+			}
+			var msg sdk.Msg
+			switch kind + op {
+			case "vadd":
+				msg = fttypes.NewMsgAddViewers(signer.Bech, ids, keys, addr, owner)
+			case "eadd":
+				msg = fttypes.NewMsgAddEditors(signer.Bech, ids, keys, addr, owner)
+			case "vremove":
+				msg = fttypes.NewMsgRemoveViewers(signer.Bech, ids, addr, owner)
+			case "eremove":
+				msg = fttypes.NewMsgRemoveEditors(signer.Bech, ids, addr, owner)
+			case "vreset":
+				msg = fttypes.NewMsgResetViewers(signer.Bech, addr, owner)
+			default:
+				msg = fttypes.NewMsgResetEditors(signer.Bech, addr, owner)
+			}
+			what := fmt.Sprintf("%s %s by %s on %s (owner hash %s) ids=%s [found=%v]", op, map[string]string{"v": "viewers", "e": "editors"}[kind], short(signer.Bech), abbrev(addr), abbrev(owner), abbrev(ids), found)
+			fail(w.apply(what, msg, verdict, found, func() {
+				cur := t.Viewers
+				if kind == "e" {
+					cur = t.Editors
+				}
+				m, _ := parseACL(cur) // success implies it parsed
+				if m == nil {
+					m = map[string]string{}
+				}
+				switch op {
+				case "add":
+					ks := splitIDs(keys)
+					for i, id := range splitIDs(ids) {
+						m[id] = ks[i]
+					}
+				case "remove":
+					for _, id := range splitIDs(ids) {
+						delete(m, id)
+					}
+				case "reset":
+					own := ftViewerID(t.Tracking, signer.Bech)
+					if kind == "e" {
+						own = ftEditorID(t.Tracking, signer.Bech)
+					}
+					m = map[string]string{own: m[own]}
+				}
+				if kind == "v" {
+					t.Viewers = aclJSON(m)
+				} else {
+					t.Editors = aclJSON(m)
+				}
+			}))
+			return op, kind, e, signer, found && verdict == mayDo
+		}
 		rt.Repeat(map[string]func(*rapid.T){
 			"provision": func(rt *rapid.T) {
 				a := drawAcc(rt, "signer")
@@ -411,82 +499,11 @@ func TestC10(t *testing.T) {
 				fail(w.compare("a transaction that was rolled back"))
 			},
 			"acl": func(rt *rapid.T) {
-				e := drawEntry(rt)
-				signer := signerFor(rt, e)
-				addr, owner := craft(rt, "address", e.Address), craft(rt, "fileOwner", e.Owner)
-				if rapid.IntRange(0, 5).Draw(rt, "accountForOwnerAddress") == 0 {
-					owner = e.Account // the account hash where the owner address is expected
+				op, kind, e, signer, ok := aclStep(rt, nil, nil, "", "")
+				// a reset is often followed by an add to the same list by the same signer
+				if op == "reset" && ok && rapid.Bool().Draw(rt, "addRightAfterTheReset") {
+					aclStep(rt, e, &signer, kind, "add")
 				}
-				t, found := w.model[ftKey(addr, owner)]
-				verdict := mustFail
-				if found && w.isOwner(t, signer.Bech) {
-					verdict = mayDo
-				}
-				kind := rapid.SampledFrom([]string{"v", "e"}).Draw(rt, "list")
-				op := rapid.SampledFrom([]string{"add", "add", "remove", "reset"}).Draw(rt, "op")
-				tn := ""
-				if found {
-					tn = t.Tracking
-				}
-				ids, keys := idsOf(rt, kind, tn)
-				if found && rapid.IntRange(0, 7).Draw(rt, "memberActsOnItsOwnId") == 0 {
-					// somebody who is not the owner names exactly its own id of that list (a viewer "leaving a share")
-					m := drawAcc(rt, "member")
-					signer = m
-					ids, keys = hexsha(kind+tn+m.Bech), "k"
-					verdict = mustFail
-					if w.isOwner(t, signer.Bech) {
-						verdict = mayDo
-					}
-				}
-				var msg sdk.Msg
-				switch kind + op {
-				case "vadd":
-					msg = fttypes.NewMsgAddViewers(signer.Bech, ids, keys, addr, owner)
-				case "eadd":
-					msg = fttypes.NewMsgAddEditors(signer.Bech, ids, keys, addr, owner)
-				case "vremove":
-					msg = fttypes.NewMsgRemoveViewers(signer.Bech, ids, addr, owner)
-				case "eremove":
-					msg = fttypes.NewMsgRemoveEditors(signer.Bech, ids, addr, owner)
-				case "vreset":
-					msg = fttypes.NewMsgResetViewers(signer.Bech, addr, owner)
-				default:
-					msg = fttypes.NewMsgResetEditors(signer.Bech, addr, owner)
-				}
-				what := fmt.Sprintf("%s %s by %s on %s (owner hash %s) ids=%s [found=%v]", op, map[string]string{"v": "viewers", "e": "editors"}[kind], short(signer.Bech), abbrev(addr), abbrev(owner), abbrev(ids), found)
-				fail(w.apply(what, msg, verdict, found, func() {
-					cur := t.Viewers
-					if kind == "e" {
-						cur = t.Editors
-					}
-					m, _ := parseACL(cur) // success implies it parsed
-					if m == nil {
-						m = map[string]string{}
-					}
-					switch op {
-					case "add":
-						ks := splitIDs(keys)
-						for i, id := range splitIDs(ids) {
-							m[id] = ks[i]
-						}
-					case "remove":
-						for _, id := range splitIDs(ids) {
-							delete(m, id)
-						}
-					case "reset":
-						own := ftViewerID(t.Tracking, signer.Bech)
-						if kind == "e" {
-							own = ftEditorID(t.Tracking, signer.Bech)
-						}
-						m = map[string]string{own: m[own]}
-					}
-					if kind == "v" {
-						t.Viewers = aclJSON(m)
-					} else {
-						t.Editors = aclJSON(m)
-					}
-				}))
 			},
 		})
 		if w.editorPost {
